@@ -91,6 +91,37 @@ def region(g: CFG, t: int, kind: str) -> set[int]:
 __all__ = ["atoms", "facts_at", "edge_for", "key", "region", "NORMAL"]
 
 
+def _adjacent(def_stmt: ast.AST, use: ast.AST) -> bool:
+    """The defining assignment sits in the same statement list as the statement that uses the name, with nothing but
+    `pass`, docstrings, logging calls or other plain assignments to *other* fresh names in between: no statement that could change
+    what the defining expression read (a conservative freshness test: a stale temporary is left unexpanded)."""
+    stmt = use
+    while stmt is not None and not isinstance(stmt, ast.stmt):
+        stmt = getattr(stmt, "_parent", None)
+    par = getattr(stmt, "_parent", None) if stmt is not None else None
+    if par is None or def_stmt is None:
+        return False
+    for fld in ("body", "orelse", "finalbody"):
+        blk = getattr(par, fld, None)
+        if isinstance(blk, list) and stmt in blk and def_stmt in blk:
+            i, j = blk.index(def_stmt), blk.index(stmt)
+            if i >= j:
+                return False
+            for mid in blk[i + 1:j]:
+                if isinstance(mid, ast.Pass):
+                    continue
+                if isinstance(mid, ast.Expr) and isinstance(mid.value, ast.Constant):
+                    continue
+                if isinstance(mid, ast.Expr) and isinstance(mid.value, ast.Call) and unparse(mid.value.func).split(".")[0] in ("logger", "logging"):
+                    continue
+                if isinstance(mid, ast.Assign) and len(mid.targets) == 1 and isinstance(mid.targets[0], ast.Name) \
+                        and not any(isinstance(x, (ast.Call, ast.Await)) and not (isinstance(x, ast.Call) and unparse(x.func) in ("len", "str", "int", "isinstance")) for x in ast.walk(mid.value)):
+                    continue
+                return False
+            return True
+    return False
+
+
 def expand_test(f, test: ast.AST, depth: int = 2) -> ast.AST:
     """The test with every local that has exactly one reaching definition (a plain, un-awaited assignment) replaced by
     the defining expression: `n = len(xs); if n == k` reads as `len(xs) == k`.  Returns a fresh AST (no `_parent` links);
@@ -107,7 +138,8 @@ def expand_test(f, test: ast.AST, depth: int = 2) -> ast.AST:
                 except Exception:  # noqa: BLE001
                     continue
                 if len(ds) == 1 and ds[0].kind == "assign" and ds[0].index is None and ds[0].value is not None \
-                        and not any(isinstance(x, (ast.Await, ast.Yield, ast.YieldFrom)) for x in ast.walk(ds[0].value)):
+                        and not any(isinstance(x, (ast.Await, ast.Yield, ast.YieldFrom)) for x in ast.walk(ds[0].value)) \
+                        and _adjacent(ds[0].stmt, n):
                     sub[n.id] = ds[0].value
         if not sub:
             break
